@@ -14,23 +14,25 @@ SCR="$(mktemp -d /tmp/jmself-XXXXXX)"; trap 'rm -rf "$SCR"' EXIT
 "$VERIF/lib/prepare.sh" "$SCR" both || exit 2
 N=200; REP=5; [ "$MODE" = quick ] && { N=60; REP=2; }
 fail=0
-for P in C06 C07 C15; do
+# (C07 twice: ordinary index space and the hot index space from 2^40 on)
+for PF in C06:0 C07:0 C15:0 C07:1099511627776; do
+  P=${PF%%:*}; F=${PF##*:}; TAG=$P; [ $F = 0 ] || TAG=$P-hot
   jobs=()
   for bin in jmsim jmsim.race; do for mp in 1 4 16; do for r in $(seq 1 $REP); do
-    out="$SCR/dg-$P-$bin-$mp-$r.txt"
-    ( GOMAXPROCS=$mp GORACE="halt_on_error=0 exitcode=66 atexit_sleep_ms=0" "$SCR/$bin" worker -prop $P -seed "${VERIF_SEED:-1}" -from 0 -to $N -nonative -digests "$out" >/dev/null 2>"$out.err" || echo "worker failed: $out" >&2 ) &
+    out="$SCR/dg-$TAG-$bin-$mp-$r.txt"
+    ( GOMAXPROCS=$mp GORACE="halt_on_error=0 exitcode=66 atexit_sleep_ms=0" "$SCR/$bin" worker -prop $P -seed "${VERIF_SEED:-1}" -from $F -to $((F+N)) -nonative -digests "$out" >/dev/null 2>"$out.err" || echo "worker failed: $out" >&2 ) &
     jobs+=($!)
     if [ ${#jobs[@]} -ge 16 ]; then wait "${jobs[0]}"; jobs=("${jobs[@]:1}"); fi
   done; done; done
   wait
-  ref="$SCR/dg-$P-jmsim-1-1.txt"
-  [ -s "$ref" ] || { echo "selfcheck: no digests for $P"; fail=1; continue; }
+  ref="$SCR/dg-$TAG-jmsim-1-1.txt"
+  [ -s "$ref" ] || { echo "selfcheck: no digests for $TAG"; fail=1; continue; }
   n=0
-  for f in "$SCR"/dg-$P-*.txt; do
+  for f in "$SCR"/dg-$TAG-j*.txt; do
     n=$((n+1))
-    if ! cmp -s "$ref" "$f"; then echo "selfcheck: NONDETERMINISM $P: $(basename "$f") differs from $(basename "$ref"):"; diff "$ref" "$f" | head -5; fail=1; fi
+    if ! cmp -s "$ref" "$f"; then echo "selfcheck: NONDETERMINISM $TAG: $(basename "$f") differs from $(basename "$ref"):"; diff "$ref" "$f" | head -5; fail=1; fi
   done
-  echo "selfcheck: determinism $P: $n event logs of $N runs each identical=$([ $fail = 0 ] && echo yes || echo NO) (plain+race, GOMAXPROCS 1/4/16)"
+  echo "selfcheck: determinism $TAG: $n event logs of $N runs each identical=$([ $fail = 0 ] && echo yes || echo NO) (plain+race, GOMAXPROCS 1/4/16)"
 done
 [ $fail = 0 ] || exit 2
 [ "$MODE" = quick ] && exit 0
